@@ -578,3 +578,28 @@ _rr('C08', 'C09', 'C09.constructor.Mass_basis', 'C08.lemma.constructor.Mass_basi
 from contracts.shared import reregister as _rr_c08b
 from contracts import c09 as _c09_c08b
 _rr_c08b('C08', 'C09', 'C09.init_yukawas.frame', 'C08.lemma.init_yukawas.frame')
+
+# 1x1 sectors of the THDM (gauge bosons): stored mass = sqrt(|m^2|) >= 0 on every path
+def _make_thdm_scalar_sector(nm, field):
+    @obligation('C08.scalar_sector.%s' % nm, fns=[(ME, 'THDM_mass_eigenstates::calculate_M' + nm)])
+    def ob(ctx, nm=nm, field=field):
+        """ensures for ANY value m2 of the 1x1 mass matrix: the stored mass M satisfies M >= 0 and M^2 == |m2|"""
+        x = ctx.real('m2')
+        it = Interp(ctx.w, mode='sym')
+        it.stubs['THDM_mass_eigenstates::get_mass_matrix_' + nm] = lambda i, ar, t: x
+        m = it.new_object('THDM')
+        paths = it.run_paths(lambda: (it.call('calculate_M' + nm, [], this=m), m.f[field])[1])
+        ctx.merge_rules(it)
+        absx = z3.If(x >= 0, x, -x)
+        for k, (sym, ms, exc) in enumerate(paths):
+            ctx.prove('path%d.mass' % k, sym.pc + sym.axioms, z3.And(z3real(ms) >= 0, z3real(ms) * z3real(ms) == absx), check_vacuity=False, tactics=('nlsat', 'default'),
+                      pins=[{'m2': -2165}, {'m2': 2165}, {'m2': 0}])
+        ctx.record('paths', PROVED if paths else ERROR, 'B', 0, '%d path(s)' % len(paths))
+    return ob
+for _nm, _field in (('VZ', 'MVZ'), ('VWm', 'MVWm')):
+    _make_thdm_scalar_sector(_nm, _field)
+
+# the THDM Higgs sectors: what reaches the eigen-solver is the mass matrix itself, entry by entry, on every path
+from contracts.shared import make_solver_input as _msi_c08
+for _nm in ('hh', 'Ah', 'Hm'):
+    _msi_c08(_nm, 'fs_diagonalize_hermitian', 2, 'C08', 'THDM_mass_eigenstates', ME, 'THDM')
